@@ -7,7 +7,7 @@ Open Scope N_scope.
 
 Definition main_path : str := R "w/d.frundis".
 Definition world_of (src : str) (extra : list (str * str)) (libs : list str) (x : bool) : world :=
-  mkWorld (map runes ["i.png"; "i.pdf"; "i.eps"; "img.png"]%string) ((main_path, src) :: extra) libs x.
+  mkWorld (map runes ["i.png"; "i.pdf"; "i.eps"; "img.png"; "."; ".."]%string) ((main_path, src) :: extra) libs x [].
 (* one source file, restricted mode *)
 Definition run_doc (fmt : string) (md : nat) (src : string) : st :=
   compile_source (runes fmt) md (world_of (runes src) [] [] false) main_path.
